@@ -548,6 +548,26 @@ DoRound(w, dt) ==
         r8 == Then(r7, LAMBDA x : DrainFrom(x, "C", 1))
     IN [w |-> r8.w, evs |-> r8.evs \o <<[ev |-> "round_end", conn |-> 1, panic |-> FALSE]>>]
 
+(***************************************************************************)
+(* RenetServer local clients (server.rs:272-309).  new_local_client hands  *)
+(* out a fresh, connected client object and adds the connection;           *)
+(* process_local_client moves the server's packets straight into the       *)
+(* client and then the client's into the server -- no transport sees them, *)
+(* so the log of emitted packets (net, dl) is left as it was.              *)
+(***************************************************************************)
+NewLocalClient(w, present) ==
+    LET w1 == [w EXCEPT !.ep["C"] = NewEndpoint("C")] IN
+    IF present THEN w1 ELSE [w1 EXCEPT !.ep["S"] = NewEndpoint("S")]
+
+ProcessLocal(w) ==
+    LET f1 == DoFlush(w, "S").w
+        n1 == Len(f1.net["S"])
+        w2 == DeliverList(f1, "C", [ix \in 1..Len(f1.net["S"][n1]) |-> <<n1, ix>>]).w
+        f2 == DoFlush(w2, "C").w
+        n2 == Len(f2.net["C"])
+        w3 == DeliverList(f2, "S", [ix \in 1..Len(f2.net["C"][n2]) |-> <<n2, ix>>]).w
+    IN [w3 EXCEPT !.net = w.net, !.dl = w.dl]
+
 RECURSIVE ObsFold(_, _, _)
 ObsFold(o, evs, i) == IF i > Len(evs) THEN o
                       ELSE LET o1 == ObsStep(o, evs[i]) IN
